@@ -31,11 +31,14 @@ class _Cm:
         self.detection_tool_rules = [ToolRule(id="rule%d" % i, name="Rule %d" % i, url="https://r/%d" % i)] if sast else []
 
 
-def _cs(i, j):
+def _cs(i, j, dep_change=False):
+    if dep_change and j == 0:
+        # a dependency-manifest changeset: its change carries no findings
+        return ChangeSet(path="f%d_%d.py" % (i, j), diff="--- \n+++ \n@@ -1 +1,2 @@\n a\n+pkg==1\n", changes=[Change(lineNumber=2, description="added pkg", findings=None)])
     return ChangeSet(path="f%d_%d.py" % (i, j), diff="--- \n+++ \n@@ -1 +1 @@\n-a\n+b\n", changes=[Change(lineNumber=1, description="d", findings=[Finding(id="rule%d" % i, rule=Rule(id="rule%d" % i, name="x", url=None)), Finding(id="other", rule=Rule(id="other", name="keep", url="u"))])])
 
 
-def compile_results_shape(run0: bool, run1: bool, run2: bool, nc0: int, nc1: int, nf0: int, sast: bool) -> bool:
+def compile_results_shape(run0: bool, run1: bool, run2: bool, nc0: int, nc1: int, nf0: int, sast: bool, dep_change: bool) -> bool:
     """context.compile_results + CodeTF.build: exactly one result per executed codemod, in execution order, each
     with its own id / summary / description / references and only its own changesets, failed files and unfixed
     findings (entries recorded for codemods that were not passed in do not leak); SAST results carry the
@@ -48,7 +51,7 @@ def compile_results_shape(run0: bool, run1: bool, run2: bool, nc0: int, nc1: int
         ctx = CodemodExecutionContext(Path("/d"), False, False, None, None, None, [], [], {}, 1)
     all_cms = [_Cm(i, sast) for i in range(3)]
     for i in range(3):
-        ctx.add_changesets(all_cms[i].id, [_cs(i, j) for j in range(nc[i])])
+        ctx.add_changesets(all_cms[i].id, [_cs(i, j, dep_change) for j in range(nc[i])])
         ctx.add_failures(all_cms[i].id, [Path("/d/bad%d_%d.py" % (i, j)) for j in range(nf[i])])
         ctx.add_unfixed_findings(all_cms[i].id, [UnfixedFinding(id="u%d" % i, rule=Rule(id="r", name="r"), path="p", reason="why") for _ in range(nf[i])])
     executed = [c for c, r in zip(all_cms[:n], (run0, run1, run2)) if r]
@@ -62,7 +65,12 @@ def compile_results_shape(run0: bool, run1: bool, run2: bool, nc0: int, nc1: int
         ok = ok and r.failedFiles == ["/d/bad%d_%d.py" % (i, j) for j in range(nf[i])]
         ok = ok and [u.id for u in r.unfixedFindings] == ["u%d" % i] * nf[i]
         ok = ok and ((r.detectionTool is not None and r.detectionTool.name == "Sonar") if sast else r.detectionTool is None)
-        for cs in r.changeset:
+        for j, cs in enumerate(r.changeset):
+            # every changeset keeps its changes (at least one, with a description and a line number)
+            ok = ok and len(cs.changes) == 1 and bool(cs.changes[0].description) and cs.changes[0].lineNumber >= 1 and cs.diff != ""
+            if dep_change and j == 0:
+                ok = ok and cs.changes[0].description == "added pkg"
+                continue
             f_own, f_other = cs.changes[0].findings
             ok = ok and f_other.rule.name == "keep" and f_other.rule.url == "u"
             if sast:
@@ -145,8 +153,8 @@ def planted_foreign_leak(nc0: int) -> bool:
 
 def warmup():
     skel.warm()
-    compile_results_shape(True, False, True, 1, 2, 2, True)
-    compile_results_shape(True, True, True, 1, 0, 0, False)
+    compile_results_shape(True, False, True, 1, 2, 2, True, True)
+    compile_results_shape(True, True, True, 1, 0, 0, False, False)
     changeset_libcst(0, False, False, True, True, False, True, True)
     changeset_regex_xml(0, False, True, True, 1, 2)
     changeset_regex_xml(1, True, True, False, 1, 2)
